@@ -24,6 +24,7 @@ BASES = collections.OrderedDict([
     ("loop-last", "name a\nversion 1.0\n\nG | 1\nfor int i in 2:0\n    H | i\nfor str s in \"a\", \"b\"\n    L(s) | 0\n    M | 1\n"),
     ("tdm", "name a\nversion 1.0\ntype tdm (temporal_modes=2)\n\nfloat array p0 =\n    0.5, 1.5\nfloat x = 0.25\nSgate(p0, x) | 1\nMeasureHomodyne(phi=p0) | 0\n"),
     ("minimal", "name a\nversion 1.0\nG | 0\n"),
+    ("array-last", "name a\nversion 1.0\n\nG | 0\nint array A =\n    1, 2\n    3, 4\n"),
 ])
 
 
@@ -266,6 +267,9 @@ def run(ctx):
             bname, kind, feat, st = m
             if feat == "directly-after-for-header" and r[0].startswith("raises:BlackbirdSyntaxError"):
                 key = "C18/line-inserted-directly-after-for-header"
+            elif bname == "array-last" and r[0].startswith("raises:BlackbirdSyntaxError") and "<EOF>" in r[1] and not text.rstrip(" \t").endswith(("\n", "\r")) \
+                    and text.rstrip(" \t").split("\r\n")[-1].split("\n")[-1].split("\r")[-1].startswith(("    ", "\t")):
+                key = "C18/no-final-newline-after-last-array-row"
             else:
                 key = "C18/%s:%s%s%s" % (r[0], kind, (":" + feat) if feat else "", "" if st == STYLES[0] else ":nl=%r,tab=%r,final=%r" % st)
             Vs.add(key, {"base": name, "text": text}, "%s ;; variant: %r" % (r[1][:200], text[:300]))
